@@ -286,17 +286,11 @@ func (r *replicator) processHash(ctx context.Context, item processItem) ([]cid.C
 	cprogress := make(chan iface.IPFSLogEntry)
 	defer close(cprogress)
 	go func() {
-		var entry iface.IPFSLogEntry
-		for {
-
-			select {
-			case <-ctx.Done():
-				return
-			case entry = <-cprogress:
-			}
-
+		// keep receiving until the channel is closed, also once the context is done: the
+		// fetcher sends without looking at the context and would block forever otherwise
+		for entry := range cprogress {
 			if entry == nil {
-				return
+				continue
 			}
 
 			if err := r.emitters.evtLoadProgress.Emit(NewEventLoadProgress(entry)); err != nil {
